@@ -32,6 +32,10 @@ pub struct SimDisk {
     pub max_read: usize,
     intr_in_a_row: u32,
     pub stats: IoStats,
+    /// armed from outside while a writer holds the disk: the next write call fails (transient error, e.g.
+    /// ENOSPC) and writes nothing; the flag is cleared when it fires
+    pub fail_once: std::rc::Rc<std::cell::Cell<bool>>,
+    pub fail_once_fired: std::rc::Rc<std::cell::Cell<u32>>,
 }
 
 impl SimDisk {
@@ -48,6 +52,8 @@ impl SimDisk {
             max_read: 0,
             intr_in_a_row: 0,
             stats: IoStats::default(),
+            fail_once: Default::default(),
+            fail_once_fired: Default::default(),
         }
     }
     pub fn faulty(data: Vec<u8>, seed: u64, short: u64, intr: u64) -> SimDisk {
@@ -103,6 +109,11 @@ impl io::Write for SimDisk {
         self.hard()?;
         if buf.is_empty() {
             return Ok(0);
+        }
+        if self.fail_once.get() {
+            self.fail_once.set(false);
+            self.fail_once_fired.set(self.fail_once_fired.get() + 1);
+            return Err(io::Error::new(io::ErrorKind::Other, "simulated transient write error (nothing written)"));
         }
         if self.intr_write > 0 && self.intr_in_a_row < 3 && self.rng.chance(self.intr_write, 1000) {
             self.intr_in_a_row += 1;
